@@ -10,7 +10,7 @@ from util import call
 
 REQUIRED_THEOREMS = ['Usid.C13.fresh_monotone', 'Usid.C13.exactly_that_base', 'Usid.C13.history_all_succeed',
                      'Usid.C13.lookup_exact', 'Usid.C13.provenance']
-RULE = ('[also: tool names with a trailing underscore / surrounding blanks, indices at the 009/099/999 boundaries, a dataset at a results-style name, results created for like-named datasets of the parent group itself (decoys), the source handed over as a USIDataset, a File object as parent] histories (quick: length <= 8 random; thorough: also all histories of length <= 3 over a reduced vocabulary) of '
+RULE = ('[also: histories addressed in turn to TWO parent groups of one file] [also: tool names with a trailing underscore / surrounding blanks, indices at the 009/099/999 boundaries, a dataset at a results-style name, results created for like-named datasets of the parent group itself (decoys), the source handed over as a USIDataset, a File object as parent] histories (quick: length <= 8 random; thorough: also all histories of length <= 3 over a reduced vocabulary) of '
         'create_indexed_group / create_results_group (default placement, an explicit parent group elsewhere in the same file, '
         'a parent group in another file) / deletions over a name vocabulary closed under prefix and '
         'substring relations, with sibling groups and non-group objects present; non-trivial = at least one create '
@@ -58,6 +58,17 @@ def generate(seed, tier):
             for op in cases[-1]['ops']:
                 if op['op'] == 'results' and rng.random() < 0.4:
                     op['of_decoy'] = True
+    # two parent groups of one file served in turn: the numbering of one parent must not see the other's members
+    for i in range({'quick': 40, 'thorough': 400, 'search': 200}[tier]):
+        rng = derived_rng(seed, 'C13two', i)
+        ops = []
+        for _ in range(rng.randint(2, 9)):
+            op = {'op': 'indexed', 'base': rng.choice(BASES)} if rng.random() < 0.45 else \
+                {'op': 'results', 'dset': rng.choice(DSETS), 'tool': rng.choice(TOOLS)}
+            op['parent'] = rng.randint(0, 1)
+            ops.append(op)
+        cases.append({'kind': 'two', 'ops': ops,
+                      'initial': [[list(x) for x in SIBLINGS if rng.random() < 0.2] for _ in (0, 1)]})
     if tier == 'thorough':
         vocab = [{'op': 'indexed', 'base': b} for b in ('A', 'A_B', 'A_A')] + \
                 [{'op': 'results', 'dset': d, 'tool': t} for d in ('Raw', 'Raw_Data') for t in ('Fit', 'Fitter')] + \
@@ -78,7 +89,81 @@ def _mk_main(grp, name, anc):
     return d
 
 
+def _run_two(inp, work):
+    from pyUSID.io import hdf_utils
+    ds = {'pos': {'sizes': [3], 'rate': [0], 'labels': ['PX'], 'units': ['a'], 'values': [[0, 1, 2]]},
+          'spec': {'sizes': [2], 'rate': [0], 'labels': ['SX'], 'units': ['b'], 'values': [[0, 1]]}}
+    with h5py.File(os.path.join(work, 'a.h5'), 'w') as f:
+        ancg = f.create_group('anc')
+        pi, pv = gen.write_anc(ancg, 'Position', ds['pos'], False)
+        si, sv = gen.write_anc(ancg, 'Spectroscopic', ds['spec'], True)
+        anc = {'Position_Indices': pi, 'Position_Values': pv, 'Spectroscopic_Indices': si, 'Spectroscopic_Values': sv}
+        P = f.create_group('P')
+        mains = {d: _mk_main(P, d, anc) for d in DSETS}
+        parents = [f.create_group('Q0'), f.create_group('Q1')]
+        for par, ini in zip(parents, inp['initial']):
+            for name, kind in ini:
+                if kind == 'group':
+                    par.create_group(name)
+                else:
+                    par.create_dataset(name, data=np.zeros(2))
+        outs = []
+        for op in inp['ops']:
+            par, oth = parents[op['parent']], parents[1 - op['parent']]
+            before, oth_before = sorted(par.keys()), sorted(oth.keys())
+            if op['op'] == 'indexed':
+                r = call(hdf_utils.create_indexed_group, par, op['base'])
+            else:
+                r = call(hdf_utils.create_results_group, mains[op['dset']], op['tool'], h5_parent_group=par)
+            rec = {'ok': r[1].name.split('/')[-1], 'in_parent': r[1].parent.name == par.name} if r[0] == 'ok' else {'err': r[1]}
+            rec.update(before=before, after=sorted(par.keys()), other_unchanged=sorted(oth.keys()) == oth_before)
+            outs.append(rec)
+        find = []
+        for k, par in enumerate(parents):
+            fk = {}
+            for d in DSETS:
+                for t in TOOLS:
+                    r = call(hdf_utils.find_results_groups, mains[d], t, h5_parent_group=par)
+                    fk['%s|%s' % (d, t)] = sorted(g.name.split('/')[-1] for g in r[1]) if r[0] == 'ok' else {'err': r[1]}
+            find.append(fk)
+        return {'outs': outs, 'listing': [sorted(p.keys()) for p in parents], 'find': find}
+
+
+def _oracle_two(inp, obs):
+    fails = []
+    tags = [{}, {}]
+    for k in (0, 1):
+        for n, kind in inp['initial'][k]:
+            m = re.fullmatch(r'([^-]+)-(.+)_([0-9]+)', n)
+            if m and kind == 'group':
+                tags[k][n] = (m.group(1), m.group(2))
+    for op, rec in zip(inp['ops'], obs['outs']):
+        prefix = _base_(op['base']) if op['op'] == 'indexed' else '%s-%s_' % (op['dset'], norm_tool(op['tool']))
+        used = [int(n[len(prefix):]) for n in rec['before'] if n.startswith(prefix) and re.fullmatch(r'[0-9]+', n[len(prefix):])]
+        want = prefix + '%03d' % (max(used) + 1 if used else 0)
+        if 'err' in rec:
+            fails.append('two-parents-raises: %s raised %s in parent %d' % (op['op'], rec['err'], op['parent']))
+            continue
+        if rec['ok'] != want or not rec['in_parent']:
+            fails.append('two-parents-monotone: created %r (in the requested parent: %s), expected %r from the members of '
+                         'THAT parent %s' % (rec['ok'], rec['in_parent'], want, rec['before']))
+        if sorted(rec['before'] + [rec['ok']]) != rec['after'] or not rec['other_unchanged']:
+            fails.append('two-parents-frame: members of a parent changed beyond the one new group')
+        if op['op'] == 'results':
+            tags[op['parent']][rec['ok']] = (op['dset'], norm_tool(op['tool']))
+    for k in (0, 1):
+        for key, got in obs['find'][k].items():
+            d, t = key.split('|')
+            want = sorted(n for n, tg in tags[k].items() if tg == (d, norm_tool(t)))
+            if got != want:
+                fails.append('two-parents-lookup: find_results_groups(%s, %s) in parent %d returned %s, created there: %s'
+                             % (d, t, k, got, want))
+    return fails
+
+
 def run_impl(inp, work):
+    if inp.get('kind') == 'two':
+        return _run_two(inp, work)
     from pyUSID.io import hdf_utils
     path = os.path.join(work, 'a.h5')
     path2 = os.path.join(work, 'b.h5')
@@ -180,6 +265,8 @@ def _base_(b):
 
 
 def oracle(inp, obs):
+    if inp.get('kind') == 'two':
+        return _oracle_two(inp, obs)
     fails = []
     tags = {}            # group name -> (dset, normalised tool) it was created for
     for n, k in inp['initial']:      # groups left by earlier sessions carry their pair in their name
@@ -233,6 +320,8 @@ def oracle(inp, obs):
 
 
 def nontrivial(inp, obs):
+    if inp.get('kind') == 'two':
+        return len({op['parent'] for op in inp['ops']}) == 2
     names = [n for n, _ in inp['initial']] + [r.get('ok') or '' for r in obs['outs']]
     for op in inp['ops']:
         b = op.get('base') or op.get('dset') or ''
@@ -242,6 +331,17 @@ def nontrivial(inp, obs):
 
 
 def model_requests_obs(inp, obs):
+    if inp.get('kind') == 'two':
+        # the model is run once per parent on the sub-history addressed to it
+        reqs = []
+        for k in (0, 1):
+            ops = [{'op': 'indexed', 'base': op['base']} if op['op'] == 'indexed' else
+                   {'op': 'results', 'dset': op['dset'], 'tool': op['tool'].strip(), 'same': False, 'sid': '/P/' + op['dset']}
+                   for op in inp['ops'] if op['parent'] == k]
+            reqs.append({'op': 'grp.run', 'initial': [{'name': n, 'kind': kd} for n, kd in inp['initial'][k]], 'ops': ops,
+                         'queries': [{'dset': d, 'tool': t.strip(), 'same': False, 'sid': '/P/' + d} for d in DSETS for t in TOOLS],
+                         'sources': []})
+        return reqs
     init = [{'name': n, 'kind': k} for n, k in inp['initial']]
     if inp['same'] and (not inp.get('sibling') or inp.get('decoy')):
         init = init + [{'name': d, 'kind': 'dataset'} for d in DSETS]
@@ -251,6 +351,20 @@ def model_requests_obs(inp, obs):
 
 
 def model_compare(inp, obs, resp):
+    if inp.get('kind') == 'two':
+        notes = []
+        keys = ['%s|%s' % (d, t) for d in DSETS for t in TOOLS]
+        for k in (0, 1):
+            mine = [rec for op, rec in zip(inp['ops'], obs['outs']) if op['parent'] == k]
+            for a, b in zip(mine, resp[k]['outs']):
+                if ('err' in a) != ('err' in b) or ('ok' in a and a['ok'] != b.get('ok')):
+                    notes.append('parent %d: op outcome differs: impl %s model %s' % (k, a.get('ok', a.get('err')), b))
+            if sorted(resp[k]['listing']) != obs['listing'][k]:
+                notes.append('parent %d: listing differs: impl %s model %s' % (k, obs['listing'][k], sorted(resp[k]['listing'])))
+            for key, m in zip(keys, resp[k]['find']):
+                if obs['find'][k][key] != sorted(m):
+                    notes.append('parent %d: find_results_groups(%s) differs: impl %s model %s' % (k, key, obs['find'][k][key], sorted(m)))
+        return notes
     r = resp[0]
     notes = []
     mo = [x if 'err' in x else {'ok': x['ok']} for x in r['outs']]
@@ -274,7 +388,10 @@ def model_compare(inp, obs, resp):
 
 def distribution(cases, obs):
     d = {'ops': 0, 'indexed': 0, 'results': 0, 'deletions': 0, 'errors': 0, 'other_file': 0, 'with_nongroup_clash': 0}
+    d['two_parent_histories'] = sum(1 for c in cases if c.get('kind') == 'two')
     for c, o in zip(cases, obs):
+        if c.get('kind') == 'two':
+            continue
         d['ops'] += len(c['ops'])
         for op, rec in zip(c['ops'], o['outs']):
             d['indexed'] += op['op'] == 'indexed'
